@@ -134,6 +134,9 @@ let handle line = match parse line with
   | A "reset" :: r :: I x :: i -> vres vnats (reset_locs (regs_of r) (nat_of_int x) (opt_idx i))
   | A "meas" :: r :: I x :: i ->
       vres (fun (a, b) -> L [vnats a; vnats b]) (measure_keys (regs_of r) (nat_of_int x) (opt_idx i))
+  | [A "formals"; ops] ->
+      L (List.map vnats (body_formals (List.map (fun p -> match list_of p with
+        | [b; I n] -> (bool_of b, nat_of_int n) | _ -> failwith "body op") (list_of ops))))
   | _ -> A "BADCMD"
 
 let () =
